@@ -44,7 +44,7 @@ theorem resume_invoked_only_initial (decls : List Decl) (m : Option Mem) (P : St
   unfold C05.gate at hg
   rw [hini, hcm] at hg
   simp only [Bool.true_and, Bool.and_eq_true, Bool.not_eq_true', Bool.not_eq_false'] at hg
-  obtain ⟨⟨_, hci⟩, hdel⟩ := hg
+  obtain ⟨⟨⟨_, hci⟩, hdel⟩, _⟩ := hg
   rw [hcinit] at hci
   have hnc : C05.detectReason (inOf (recall m e) e) ≠ .create := by
     intro hc; simp [hc] at hci
